@@ -41,11 +41,13 @@ def ops(pg, g1):
         reqs.put_traits(P(1), pg, [T1], tag='PUT traits P1'),
         reqs.put_aggs(P(1), pg, [A(1)], tag='PUT aggregates P1'),
         reqs.del_inv(P(1), 'VCPU', tag='DELETE inventory P1/VCPU'),
+        reqs.put_alloc(K(1), {}, cgen=g1, tag='PUT K1 clear (own generation)'),
     ]
 
 
 QUICK = [(0, 1), (0, 2), (0, 3), (0, 4), (0, 5), (0, 6), (1, 4), (2, 2), (2, 5), (3, 5), (3, 9),
-         (4, 5), (4, 6), (5, 6), (5, 7), (0, 7), (0, 8), (7, 8), (0, 9), (1, 3), (2, 6)]
+         (4, 5), (4, 6), (5, 6), (5, 7), (0, 7), (0, 8), (7, 8), (0, 9), (1, 3), (2, 6),
+         (3, 10), (0, 10), (5, 10)]
 
 
 def scenarios(quick):
@@ -58,6 +60,8 @@ def scenarios(quick):
             ra, rb = o[a], o[b]
             if a == b and 'allocations' in ra['path']:
                 continue          # the same consumer write twice is C06's business
+            if g1 is None and 10 in (a, b):
+                continue          # nothing to clear
             out.append({'name': '%s: %s || %s' % (name, ra['tag'], rb['tag']), 'setup': setup,
                         'requests': [ra, rb], 'bound': None, 'max_exec': 6000})
         if not quick and name in ('cap3 K1 holds 1', 'nested constrained'):
